@@ -35,7 +35,7 @@ TRANSPARENT = ('iter', 'into_iter', 'cloned', 'copied', 'by_ref', 'iter_mut', 'd
 EMPTY = re.compile(r'(Vec|String|VecDeque|HashSet|BTreeSet)::(new|with_capacity)$|Default>::default$|default::Default::default$')
 APPEND = re.compile(r'(Vec|String|VecDeque)::(push|push_str|push_back|extend|extend_from_slice|append|resize|insert)$|(HashSet|BTreeSet)::insert$|'
                     r'Extend>::extend$|Extend<.*>::extend$')
-MUTATE = re.compile(r'(Vec|String|VecDeque)::(clear|truncate|pop|remove|swap_remove|retain|dedup|drain|reverse|sort\w*|'
+MUTATE = re.compile(r'(Vec|String|VecDeque)::(clear|truncate|pop|remove|swap_remove|retain\w*|dedup\w*|drain|reverse|sort\w*|extract_if|'
                     r'split_off|rotate_\w+|fill|swap|set_len|pop_front|pop_back|push_front)$|slice::(sort\w*|reverse|swap|fill|rotate_\w+)$')
 
 
